@@ -27,7 +27,7 @@ for src in sys.argv[3:]:
             continue
         a = os.path.join(src, f)
         if os.path.isdir(a):
-            if f in ('stubs',):
+            if f in ('stubs', 'g4stub'):
                 shutil.copytree(a, os.path.join(dst, f), dirs_exist_ok=True)
             continue
         if os.path.getsize(a) > 400000:
